@@ -380,6 +380,28 @@ def _filtered_iteration(tree):
         node.body = [iff]
 
 
+def _conditional_expressions(tree):
+    """``x = a if c else b`` / ``return a if c else b`` (the conditional
+    expression is the whole value) is the if / else statement."""
+    for node in list(ast.walk(tree)):
+        for fld in ('body', 'orelse', 'finalbody'):
+            blk = getattr(node, fld, None)
+            if not (isinstance(blk, list) and blk and isinstance(
+                    blk[0], ast.stmt)):
+                continue
+            for i, st in enumerate(blk):
+                if isinstance(st, (ast.Assign, ast.Return)) and isinstance(
+                        st.value, ast.IfExp):
+                    ie = st.value
+                    a = _plain_copy(st)
+                    a.value = ie.body
+                    b = _plain_copy(st)
+                    b.value = ie.orelse
+                    new = ast.If(test=ie.test, body=[a], orelse=[b])
+                    ast.copy_location(new, st)
+                    blk[i] = new
+
+
 def _negate(t):
     """``not t`` in its plainest spelling: double negation is removed and
     the exact complements is / is not, in / not in, == / != are flipped."""
@@ -410,6 +432,7 @@ def normalise(tree):
     _unroll_table_loops(tree)
     _plain_idioms(tree)
     _filtered_iteration(tree)
+    _conditional_expressions(tree)
     changed = True
     rounds = 0
     while changed and rounds < 50:
